@@ -292,7 +292,7 @@ int main(void) {
       int c = sscanf(line + 5, "%15s %lu", k, &n);
       if (c == 2 && (!strcmp(k, "w") || (!strcmp(k, "fd")))) {
         printf("op peer %s %lu\n", k, n);
-        if (!strcmp(k, "fd") && !is_ipc) printf("#ignored\n"); else peer_write(n, !strcmp(k, "fd"));
+        if (!strcmp(k, "fd") && h.s.type != UV_NAMED_PIPE) printf("#ignored\n"); else peer_write(n, !strcmp(k, "fd"));
       } else if (c == 1 && !strcmp(k, "shut")) {
         printf("op peer shut\n");
         if (peerfd >= 0 && !peer_shut) { shutdown(peerfd, SHUT_WR); peer_shut = 1; wait_ready(); }
